@@ -33,7 +33,7 @@ EXPS = list(range(-15, 16))
 
 
 def budget_s(tier):
-    return 400 if tier == "quick" else 3600
+    return 1500 if tier == "quick" else 5400
 
 
 def shards(tier):
